@@ -184,6 +184,9 @@ pub struct World {
     /// variables and working directory a user's shell may differ in). References always run in the baseline.
     #[serde(default)]
     pub env: u8,
+    /// fault on the process's own stdout/stderr while this world runs (see simenv::break_stdio); 0 = none
+    #[serde(default)]
+    pub stdio: u8,
 }
 
 pub fn default_log_level() -> u8 {
@@ -201,6 +204,7 @@ impl World {
             note: String::new(),
             log_level: 3,
             env: 0,
+            stdio: 0,
         }
     }
 }
